@@ -30,6 +30,7 @@ type GenOpts struct {
 	ChainBias        bool // prefer depending on recently generated services (deeper chains)
 	AltImpl          bool // interface-typed outputs whose concrete implementation alternates between invocations
 	Drops            bool // one identity of a multi-identity registration is removed again right after the call
+	OptionalBias     bool // half of the dependencies on registered services are optional
 	NamedVoid        bool // initializer functions registered with a name (resolvable as a keyed empty struct)
 	PreBuild         bool // the collection is built (and the provider used and closed) once before all registrations are in
 }
@@ -138,7 +139,11 @@ func (g *genState) genDeps(t *rapid.T, life int) (deps []DepSpec, needIn bool) {
 			}
 			a := rapid.SampledFrom(cands).Draw(t, "dep")
 			d := DepSpec{T: a.id.T, Key: a.id.Key}
-			if rapid.IntRange(0, 5).Draw(t, "opt") == 0 {
+			optOdds := 5
+			if g.o.OptionalBias {
+				optOdds = 1
+			}
+			if rapid.IntRange(0, optOdds).Draw(t, "opt") == 0 {
 				d.Optional = true
 			}
 			deps = append(deps, d)
